@@ -95,6 +95,8 @@ type aggregate struct {
 	replicas   int
 	forks      int
 	seedsSeen  map[uint64]bool
+	traced     []*chain.WorldResult // clean worlds whose trace was kept (for the cross-process arm of C01)
+	crossRuns  int
 }
 
 func newAgg() *aggregate {
@@ -124,6 +126,9 @@ func (a *aggregate) add(prop string, known []knownEntry, r *chain.WorldResult) {
 		if len(a.samples) < 3 && r.Sample != "" {
 			a.samples = append(a.samples, r.Sample)
 		}
+	}
+	if r.Trace != nil && len(r.Violations) == 0 && len(a.traced) < 64 {
+		a.traced = append(a.traced, r)
 	}
 	rel := false
 	for _, v := range r.Violations {
@@ -262,6 +267,35 @@ func runCheck(prop, tier string, seed uint64) int {
 	}
 	wg.Wait()
 
+	// C01, cross-process arm: the same trace executed in another process with another scheduler
+	// width, time zone and home directory must produce the identical event log (every response of every
+	// replica). A difference cannot be pinned by a seed; the replay tool re-executes to show it.
+	if prop == "C01" && len(agg.harness) == 0 && len(agg.relevant) == 0 {
+		n := 6
+		if tier == "thorough" {
+			n = 40
+		}
+		for i, r := range agg.traced {
+			if i >= n {
+				break
+			}
+			tr := r.Trace.Clone()
+			alt := execInChildEnv(tr, "GOMAXPROCS=1", "TZ=Pacific/Kiritimati", "HOME=/tmp/verif-althome", "LANG=ko_KR.UTF-8")
+			agg.crossRuns++
+			if alt == nil {
+				agg.harness = append(agg.harness, "cross-process replay failed to run")
+				break
+			}
+			if alt.LogHash != r.LogHash {
+				v := &chain.Violation{Check: "replica.cross-process", Props: []string{"C01"}, Detail: fmt.Sprintf("seed %d world %d: the event log differs between two processes fed the same trace (%s vs %s)", r.Seed, r.World, r.LogHash, alt.LogHash)}
+				r.Violations = append(r.Violations, v)
+				agg.relevant = append(agg.relevant, r)
+				break
+			}
+		}
+		agg.probes["cross-process.replays"] = agg.crossRuns
+	}
+
 	wall := time.Since(t0).Seconds()
 	violations := 0
 	var replayPath string
@@ -387,7 +421,10 @@ var childSeq int
 var childMu sync.Mutex
 
 // execInChild executes a trace in a fresh OS process.
-func execInChild(tr *chain.Trace) *chain.WorldResult {
+func execInChild(tr *chain.Trace) *chain.WorldResult { return execInChildEnv(tr, "GOMAXPROCS=2") }
+
+// execInChildEnv executes a trace in a fresh OS process with extra environment.
+func execInChildEnv(tr *chain.Trace, env ...string) *chain.WorldResult {
 	childMu.Lock()
 	childSeq++
 	n := childSeq
@@ -400,7 +437,7 @@ func execInChild(tr *chain.Trace) *chain.WorldResult {
 	}
 	defer os.Remove(p)
 	cmd := exec.Command(selfExe(), "exec", "--file", p)
-	cmd.Env = append(os.Environ(), "GOMAXPROCS=2")
+	cmd.Env = append(os.Environ(), env...)
 	out, err := cmd.Output()
 	if err != nil {
 		return nil
@@ -447,7 +484,7 @@ func shrinkAndSave(prop string, known []knownEntry, r *chain.WorldResult) (strin
 	if tr == nil {
 		return "(trace missing)", want
 	}
-	if tr.Engine != "chain-sim" {
+	if tr.Engine != "chain-sim" || want.Check == "replica.cross-process" {
 		tr.Expect = want.Check
 		_ = tr.Save(path)
 		return path, want
